@@ -243,9 +243,11 @@ def extra_c02_bounded(prop, tier, seed):
 
 def extra_c12_bounded(prop, tier, seed):
     """Bounded stand-in (the ONLY evidence for C12; labelled): every document of <= n rules over 3 names
-    (one of them a socket) x {type =, type /=, group =, group //=} through the real parser against an
-    oracle written from the property (rejected iff a name gets a plain `=` after any earlier definition;
-    error names the rule, at the later definition), plus 21 reference cases through CDDL::from_slice."""
+    (one of them a socket) x {type =, type /=, group =, group //=, generic type =, generic type /=} through the real
+    parser against an oracle written from the property (rejected iff a name gets a plain `=` after any earlier
+    definition; error names the rule, at the later definition); through CDDL::from_slice 21 fixed reference cases
+    and 42 reference positions x {9 undefined names, the same names defined before / far after, 12 prelude names,
+    sockets, a generic parameter of another rule}, including the positions where a name is NOT a reference."""
     n = '4' if tier == 'thorough' else '3'
     out, err = _replay(['u4', 'find', n])
     if out is None:
@@ -255,7 +257,7 @@ def extra_c12_bounded(prop, tier, seed):
                        {'case': 'a /= int / a //= (k: int) / c-d = bool -> accepted, 3 rules'},
                        {'case': 'a<t> = [t, u] via CDDL::from_slice -> rejected: missing definition for rule u'}],
            'bounded': [{'check': 'duplicate definitions and undefined references, real parser entry points',
-                        'bound': '%s rules; 21 reference cases' % n, 'documents': out.get('tried'), 'found': out.get('found')}]}
+                        'bound': '%s rules; 42 reference positions x ~40 names; 21 fixed reference cases' % n, 'documents': out.get('tried'), 'found': out.get('found')}]}
     if out.get('found'):
         res['violations'].append({
             'unit': 'U4', 'label': 'rules:duplicate-and-undefined-detection', 'fn': 'convert_cddl / find_first_undefined_reference',
@@ -707,7 +709,7 @@ PROPS = {
         'engine': 'replay',
         'technique': 'bounded stand-in only (no contract within reach): exhaustive small-document enumeration on the real parser against an oracle written from the property',
         'level_text': 'NOT a proof. The duplicate-definition check is an inline loop of convert_cddl over HashMap<String,_> (entry API), rule.name() Strings and format!-built errors, the reference walker works on pest Pairs: Verus rejects all of it and Kani does not terminate on String/HashMap code, so no contract can be written. As the brief allows, a bounded check of these functions stands in, labelled bounded: every document of <= 3 rules (4 in the thorough tier) over 3 names x 4 rule forms must be accepted/rejected exactly as the property says, with the error naming the rule at the later definition; 21 fixed cases cover undefined references through CDDL::from_slice.',
-        'level_note': 'Bounded: documents of at most 3 (4) rules; generics / distance between definitions beyond that are not explored. Trusted: the oracle in replay/src/u4.rs.',
+        'level_note': 'Bounded: documents of at most 3 (4) rules over 3 names and 6 rule shapes; 42 reference positions (nesting depth <= 3); distance between definitions beyond that is not explored. Trusted: the oracle in replay/src/u4.rs.',
         'design_ref': 'DESIGN.md 5 (C12)',
         'scope': 'convert_cddl duplicate check and find_first_undefined_reference, via the public parser entry points',
         'assumptions': [],
